@@ -89,6 +89,9 @@ func c14Stage(b *builtList, items []*astisub.Item, snaps []itemSnap, cues []cueS
 		if f.String() == "" {
 			return "filler has no placeholder text; " + ctx()
 		}
+		if f.String() != fillerRef {
+			return fmt.Sprintf("filler text is %q, the first filler this process obtained read %q (the placeholder depends on earlier calls); %s", f.String(), fillerRef, ctx())
+		}
 		for _, it := range items {
 			if it == f {
 				return "filler is one of the cues the list already had; " + ctx()
@@ -102,8 +105,29 @@ func c14Stage(b *builtList, items []*astisub.Item, snaps []itemSnap, cues []cueS
 	return ""
 }
 
+// fillerRef is the placeholder text of a filler obtained before any other call of this process.
+var fillerRef = func() string {
+	s := astisub.NewSubtitles()
+	s.ForceDuration(time.Second, true)
+	if len(s.Items) != 1 {
+		return "?"
+	}
+	return s.Items[0].String()
+}()
+
 func checkC14(c c14Case) string {
 	b := buildList(c.Cues)
+	// whatever happens, the caller finally edits the cues it owns (fillers included): later calls must not notice
+	defer func() {
+		for _, it := range b.sub.Items {
+			for li := range it.Lines {
+				it.Lines[li].VoiceName = "edited"
+				for ri := range it.Lines[li].Items {
+					it.Lines[li].Items[ri].Text += "!"
+				}
+			}
+		}
+	}()
 	if m := c14Stage(b, b.items, b.snaps, c.Cues, c.D, c.Filler, ""); m != "" {
 		return m
 	}
